@@ -121,11 +121,15 @@ func (esc *endpointSliceController) onEventInternal(old, ep *v1.EndpointSlice, e
 	name := serviceNameForEndpointSlice(esLabels)
 	namespace := ep.GetNamespace()
 	svc := esc.c.services.Get(name, namespace)
+	hostnames := esc.c.hostNamesForNamespacedName(namespacedName)
 	if svc != nil && !serviceNeedsPush(svc) {
+		// The Service is exported to nobody, so there is no proxy to push to. Still keep the endpoint index in step with
+		// the cache: otherwise what the index holds for this Service depends on whether the slice or the exportTo
+		// annotation was seen first, and an endpoint removed meanwhile is served again once the Service is exported.
+		esc.updateEDS(hostnames, namespacedName.Namespace, false)
 		return
 	}
 
-	hostnames := esc.c.hostNamesForNamespacedName(namespacedName)
 	log.Debugf("triggering EDS push for %s in namespace %s", hostnames, namespacedName.Namespace)
 	// Trigger EDS push for all hostnames.
 	esc.pushEDS(hostnames, namespacedName.Namespace)
@@ -475,6 +479,12 @@ func endpointSliceSelectorForService(name string) klabels.Selector {
 }
 
 func (esc *endpointSliceController) pushEDS(hostnames []host.Name, namespace string) {
+	esc.updateEDS(hostnames, namespace, true)
+}
+
+// updateEDS hands the cached endpoints of the hostnames to the XDS updater: with push it requests an EDS push,
+// without it only the endpoint index is updated.
+func (esc *endpointSliceController) updateEDS(hostnames []host.Name, namespace string, push bool) {
 	shard := model.ShardKeyFromRegistry(esc.c)
 	// Even though we just read from the cache, we need the full lock to ensure pushEDS
 	// runs sequentially when `EnableK8SServiceSelectWorkloadEntries` is enabled. Otherwise,
@@ -496,7 +506,11 @@ func (esc *endpointSliceController) pushEDS(hostnames []host.Name, namespace str
 			}
 		}
 
-		esc.c.opts.XDSUpdater.EDSUpdate(shard, string(hostname), namespace, endpoints)
+		if push {
+			esc.c.opts.XDSUpdater.EDSUpdate(shard, string(hostname), namespace, endpoints)
+		} else {
+			esc.c.opts.XDSUpdater.EDSCacheUpdate(shard, string(hostname), namespace, endpoints)
+		}
 	}
 }
 
